@@ -1091,7 +1091,9 @@ Definition partial_call_step (self : evals) (st : state) (name : bytes) (data : 
 Definition exec_prog_step (self : evals) (st : state) (prog : list stmt) (out : bytes) : outcome :=
       match prog with
       | [] => OOk out st
-      | s :: rest =>
+      | s :: rest0 =>
+          let rest := rest0 in
+          let st := with_stmt st None in          (* c.curStmt = nil *)
           let r : R :=
             match s with
             | SRet _ is_e e =>
